@@ -266,11 +266,17 @@ class Executor:
 
         # If we get here, no relevant inputs have changed,
         # so we can make the step pending again, to be re-queued when new inputs arrive.
-        # The step is deferred: without the flag it would still satisfy the dispatch conditions
+        # The step is deferred while one of its dynamic inputs still cannot be used:
+        # without the flag it would still satisfy the dispatch conditions
         # and the same validation job would be handed out again at once, for ever.
-        # `Workflow.mark_step_pending` clears the flag when an input of the step changes.
+        # `Workflow.mark_step_pending` clears the flag when an input of the step changes,
+        # and the `step_node_undefer_reattached` trigger when a detached input is revived.
+        # Neither reacts while the step is CHECKING, so the inputs are examined here,
+        # in the transaction that records the outcome, not when the job was derived:
+        # if they all came back in the meantime, the step must not wait for an event that
+        # has already happened. It is then dispatched again, this time to be skipped or rerun.
         async with self.db:
-            step.set_state(StepState.PENDING, True)
+            step.set_state(StepState.PENDING, step.has_unusable_dynamic_input())
         self._report_step_counts()
 
     async def try_skip_job(
